@@ -24,16 +24,17 @@ type sigRec struct {
 
 // harness drives one real machine and the reference model side by side.
 type harness struct {
-	lastChecked gen.Succ // the last candidate that passed CheckUpdate (same object)
-	prop        string
-	n, own      int
-	appKind     int
-	accs        []*gen.Acc
-	params      *channel.Params
-	m           *channel.StateMachine
-	res         *kernel.Result
-	trace       bool
-	step        int
+	noMoreCandidates bool     // C01: a state with another participant count was force-staged
+	lastChecked      gen.Succ // the last candidate that passed CheckUpdate (same object)
+	prop             string
+	n, own           int
+	appKind          int
+	accs             []*gen.Acc
+	params           *channel.Params
+	m                *channel.StateMachine
+	res              *kernel.Result
+	trace            bool
+	step             int
 
 	// reference automaton (written from the doc comments of the operations)
 	ph         channel.Phase
@@ -434,6 +435,10 @@ func (h *harness) do(st *kernel.Step) {
 			h.setStagedModel(s, channel.InitSigning)
 		}
 	case "update", "check", "force":
+		if h.noMoreCandidates {
+			h.logf("%s skipped (a state with another participant count was forced earlier)", op)
+			return
+		}
 		c, ok := h.candidate(st)
 		if !ok {
 			h.logf("%s skipped (no current state)", op)
@@ -498,7 +503,14 @@ func (h *harness) do(st *kernel.Step) {
 				h.setStagedModel(c.State, channel.Signing)
 			}
 		case "force":
-			if !gen.WellFormed(&c.State.Allocation) || len(c.State.Balances[0]) != h.n {
+			if h.prop == "C01" && gen.WellFormed(&c.State.Allocation) && len(c.State.Balances) > 0 && len(c.State.Balances[0]) != h.n && len(c.State.Balances[0]) > 0 {
+				// C01 only: a forced state with balance columns for another number of
+				// participants than the channel has (a state of another channel). It
+				// still needs every participant's signature. No further candidates
+				// are offered afterwards (apps index balances by participant).
+				h.noMoreCandidates = true
+				h.res.Count("probe.forced-other-participant-count", 1)
+			} else if !gen.WellFormed(&c.State.Allocation) || len(c.State.Balances[0]) != h.n {
 				// an unencodable state cannot be signed by anyone; the library
 				// only force-stages states it received in encoded form
 				c, _ = h.candidate(&kernel.Step{Op: "force", A: st.A, S: map[string]string{"kind": "valid"}})
